@@ -1106,7 +1106,7 @@ func (g *agen) prog(n, failAt, depth int) []string {
 			out = append(out, "wit", g.who())
 		case c < 16:
 			out = append(out, []string{"inp", "ctx", "bi"}[g.r.Rng.Intn(3)])
-		case c < 19 && depth < 3:
+		case c < 19 && depth < 6 && (depth < 3 || g.r.Rng.Bool()):
 			kw := "call"
 			if g.r.Rng.Chance(1, 3) {
 				kw = "try"
@@ -1273,6 +1273,32 @@ func (f *atomic) Gen(r *hx.Run) {
 		r.Do("blk 2 tx - B.run [ get 01 get 02 get 0301 mkl 0d ]")
 		r.Do("commit")
 		r.Nontrivial(fmt.Sprintf("panicpos/%d", k))
+	}
+	// nesting five deep with a failure at the innermost frame, swallowed at every possible level (what survives: the
+	// writes of every frame, the events and cross hashes of the swallowing frame's failed callee only)
+	for lvl := 0; lvl < 5; lvl++ {
+		id++
+		r.Case(fmt.Sprintf("nest5-swallow-at-%d", lvl))
+		inner := "put 0301 05 ntf 05 mkl 05 fail"
+		for d := 4; d >= 1; d-- {
+			kw := "call"
+			if d == lvl {
+				kw = "try"
+			}
+			tgt := "A.run"
+			if d%2 == 0 {
+				tgt = "B.run"
+			}
+			inner = fmt.Sprintf("put 0%d 0%d ntf 0%d mkl 0%d %s %s [ %s ] ntf a%d wit A wit B ctx", d, d, d, d, kw, tgt, inner, d)
+		}
+		kw0 := "call"
+		if lvl == 0 {
+			kw0 = "try"
+		}
+		r.Do(fmt.Sprintf("blk 0 tx s0 A.run [ put 01 aa ntf 00 mkl 00 %s B.run [ %s ] ntf ff mkl ff get 0301 ] tx - B.run [ get 01 get 02 get 03 get 04 get 0301 ]", kw0, inner))
+		r.Do("commit")
+		r.Do("blk 0 tx - A.run [ get 01 get 02 get 03 get 04 get 0301 ]")
+		r.Nontrivial(fmt.Sprintf("nest5/%d", lvl))
 	}
 	// the context stack limit: 1023..1027 nested frames
 	for _, n := range []int{1, 2, 1022, 1023, 1024, 1025, 1026, 1030} {
